@@ -5,7 +5,7 @@ from harness.cond import CondAdapter
 from lib import recipe
 
 INV = ['Mutex', 'SemNonNeg', 'NoAssert', 'NotifyAllWakes', 'NotifyAtMostOne', 'NotifyWakesOnly',
-       'Consistent', 'QuietBalanced']
+       'Consistent', 'QuietBalanced', 'AnnounceBeforeUnlock']
 PROPS = ['WaitResult', 'EventReportsFlag', 'FlagOnlyUnderLock']
 
 
